@@ -78,6 +78,7 @@ type stream struct {
 	balancing                    bool
 	closeWithCancel              bool
 	open                         bool
+	closing                      bool
 }
 
 type streamEndNotSupportedData struct {
@@ -214,6 +215,11 @@ func (s *stream) listenEnd(endContext models.DcpStreamEndContext) {
 		go s.reopenStream(endContext.Event.VbID)
 	} else {
 		activeStreams := s.activeStreams.Add(-1)
+		if s.closing {
+			// these ends are caused by our own Close(), which reports them with the token it sends itself;
+			// a second token would outlive this session and stop the client after the next re-open
+			return
+		}
 		if activeStreams == 0 && !s.streamFinishedWithCloseCh {
 			s.finishStreamWithEndEventCh <- struct{}{}
 		}
@@ -223,6 +229,7 @@ func (s *stream) listenEnd(endContext models.DcpStreamEndContext) {
 func (s *stream) Open() {
 	s.streamFinishedWithCloseCh = false
 	s.streamFinishedWithEndEventCh = false
+	s.closing = false
 
 	s.eventHandler.BeforeStreamStart()
 
@@ -428,6 +435,7 @@ func (s *stream) Close(closeWithCancel bool) {
 	}
 
 	s.closeWithCancel = closeWithCancel
+	s.closing = true
 
 	s.eventHandler.BeforeStreamStop()
 
